@@ -1234,6 +1234,10 @@ func SelectExpr(query *Query, current Map, expr *sqlparser.SelectExprs, opts ...
 		case *sqlparser.StarExpr:
 			{
 				for key, value := range current {
+					// the backward navigation marker is not a column
+					if key == "<-" {
+						continue
+					}
 					query.postProcessors = append(query.postProcessors, func() error {
 						delete(data, "<-")
 						return nil
